@@ -254,3 +254,39 @@ func vEnvs(n int) []*Zlisp {
 	})
 	return vEnvPool[:n]
 }
+
+var vStdEnvPool [2]*Zlisp
+
+// vStdEnvs returns sandboxed interpreters with StandardSetup applied (the
+// configuration cmd/zygo uses under -sandbox), built once per worker.
+func vStdEnvs(n int) []*Zlisp {
+	vSetupOnce("stdenvpool", func() {
+		for i := range vStdEnvPool {
+			vStdEnvPool[i] = NewZlispSandbox()
+			vStdEnvPool[i].StandardSetup()
+			vStdEnvPool[i].AddFunction("t", vTraceFunction)
+		}
+	})
+	vTraceLog = nil
+	vTraceCalls = 0
+	vFailPlan = nil
+	return vStdEnvPool[:n]
+}
+
+// vPickString chooses one of options (a case split under the engine).  The
+// chosen string itself is part of the replay model, so a native replay picks
+// the same string even if its option list is ordered differently.
+func vPickString(key string, options []string) string {
+	n := int(vModel[key+".len"])
+	b := make([]byte, n)
+	for i := range b {
+		b[i] = byte(vModel[fmt.Sprintf("%s[%d]", key, i)])
+	}
+	s := string(b)
+	for _, o := range options {
+		if o == s {
+			return s
+		}
+	}
+	panic(vAssumeFailed{})
+}
